@@ -47,6 +47,9 @@ func (c *vc06LogsConsumer) ConsumeLogs(_ context.Context, ld plog.Logs) error {
 func (c *vc06LogsConsumer) mutate() {
 	rl := c.got.ResourceLogs().At(0)
 	rl.Resource().Attributes().PutInt("touched-by", int64(c.idx))
+	// existing numeric values are updated in place as well (a value of the same type as before)
+	rl.Resource().Attributes().PutInt("n", int64(c.mutation))
+	rl.Resource().Attributes().PutDouble("d", 2.5)
 	lrs := rl.ScopeLogs().At(0).LogRecords()
 	lrs.At(0).SetTimestamp(pcommon.Timestamp(c.mutation))
 	lrs.AppendEmpty().SetTimestamp(pcommon.Timestamp(c.mutation + 1))
@@ -56,6 +59,8 @@ type vc06Snap struct {
 	ts      []uint64
 	touched bool
 	res     string
+	n       int64
+	d       float64
 }
 
 func vc06SnapLogs(ld plog.Logs) vc06Snap {
@@ -65,6 +70,12 @@ func vc06SnapLogs(ld plog.Logs) vc06Snap {
 		s.res = v.Str()
 	}
 	_, s.touched = rl.Resource().Attributes().Get("touched-by")
+	if v, ok := rl.Resource().Attributes().Get("n"); ok {
+		s.n = v.Int()
+	}
+	if v, ok := rl.Resource().Attributes().Get("d"); ok {
+		s.d = v.Double()
+	}
 	lrs := rl.ScopeLogs().At(0).LogRecords()
 	for i := 0; i < lrs.Len(); i++ {
 		s.ts = append(s.ts, uint64(lrs.At(i).Timestamp()))
@@ -73,7 +84,7 @@ func vc06SnapLogs(ld plog.Logs) vc06Snap {
 }
 
 func vc06Same(a, b vc06Snap) bool {
-	if a.touched != b.touched || a.res != b.res || len(a.ts) != len(b.ts) {
+	if a.touched != b.touched || a.res != b.res || a.n != b.n || a.d != b.d || len(a.ts) != len(b.ts) {
 		return false
 	}
 	for i := range a.ts {
@@ -107,6 +118,8 @@ func VerifC06Logs() {
 	ld := plog.NewLogs()
 	rl := ld.ResourceLogs().AppendEmpty()
 	rl.Resource().Attributes().PutStr("res", "r0")
+	rl.Resource().Attributes().PutInt("n", 7)
+	rl.Resource().Attributes().PutDouble("d", 1.5)
 	lrs := rl.ScopeLogs().AppendEmpty().LogRecords()
 	t0, t1 := vNondetUint64("ts"), vNondetUint64("ts")
 	lrs.AppendEmpty().SetTimestamp(pcommon.Timestamp(t0))
@@ -155,7 +168,7 @@ func VerifC06Logs() {
 		} else {
 			// works on data no one else can see: exactly its own two mutations on top of the original
 			s := vc06SnapLogs(c.got)
-			ok := s.touched && len(s.ts) == len(orig.ts)+2 && s.ts[0] == c.mutation && s.ts[1] == orig.ts[1]
+			ok := s.touched && len(s.ts) == len(orig.ts)+2 && s.ts[0] == c.mutation && s.ts[1] == orig.ts[1] && s.n == int64(c.mutation) && s.d == 2.5
 			vAssert(ok, "logs/mutating-consumer-sees-only-its-own-changes")
 			vAssert(!c.got.IsReadOnly(), "logs/mutating-consumer-gets-mutable-data")
 		}
@@ -209,6 +222,9 @@ func (c *vc06TracesConsumer) ConsumeTraces(_ context.Context, td ptrace.Traces) 
 func (c *vc06TracesConsumer) mutate() {
 	rs := c.got.ResourceSpans().At(0)
 	rs.Resource().Attributes().PutInt("touched-by", int64(c.idx))
+	// existing numeric values are updated in place as well (a value of the same type as before)
+	rs.Resource().Attributes().PutInt("n", int64(c.mutation))
+	rs.Resource().Attributes().PutDouble("d", 2.5)
 	sps := rs.ScopeSpans().At(0).Spans()
 	sps.At(0).SetStartTimestamp(pcommon.Timestamp(c.mutation))
 	sps.AppendEmpty().SetStartTimestamp(pcommon.Timestamp(c.mutation + 1))
@@ -221,6 +237,12 @@ func vc06SnapTraces(td ptrace.Traces) vc06Snap {
 		s.res = v.Str()
 	}
 	_, s.touched = rs.Resource().Attributes().Get("touched-by")
+	if v, ok := rs.Resource().Attributes().Get("n"); ok {
+		s.n = v.Int()
+	}
+	if v, ok := rs.Resource().Attributes().Get("d"); ok {
+		s.d = v.Double()
+	}
 	sps := rs.ScopeSpans().At(0).Spans()
 	for i := 0; i < sps.Len(); i++ {
 		s.ts = append(s.ts, uint64(sps.At(i).StartTimestamp()))
@@ -249,6 +271,8 @@ func VerifC06Traces() {
 	td := ptrace.NewTraces()
 	rs := td.ResourceSpans().AppendEmpty()
 	rs.Resource().Attributes().PutStr("res", "r0")
+	rs.Resource().Attributes().PutInt("n", 7)
+	rs.Resource().Attributes().PutDouble("d", 1.5)
 	sps := rs.ScopeSpans().AppendEmpty().Spans()
 	sps.AppendEmpty().SetStartTimestamp(pcommon.Timestamp(vNondetUint64("ts")))
 	sps.AppendEmpty().SetStartTimestamp(pcommon.Timestamp(vNondetUint64("ts")))
@@ -287,7 +311,7 @@ func VerifC06Traces() {
 			}
 		} else {
 			s := vc06SnapTraces(c.got)
-			ok := s.touched && len(s.ts) == len(orig.ts)+2 && s.ts[0] == c.mutation && s.ts[1] == orig.ts[1]
+			ok := s.touched && len(s.ts) == len(orig.ts)+2 && s.ts[0] == c.mutation && s.ts[1] == orig.ts[1] && s.n == int64(c.mutation) && s.d == 2.5
 			vAssert(ok, "traces/mutating-consumer-sees-only-its-own-changes")
 		}
 	}
